@@ -1,6 +1,7 @@
 package c19
 
 import (
+	"encoding/hex"
 	"fmt"
 	"math/rand"
 	"strings"
@@ -39,7 +40,10 @@ func historyDoc(seed int64, history string) (*shared.Doc, error) {
 		if r == 0 {
 			rev.Ops = []ser.Op{
 				{Num: 1, Kind: ser.Define, Value: obj.Dict{"Type": obj.Name("Catalog"), "Pages": obj.Ref{Num: 2},
-					"PageMode": obj.Ref{Num: 7}, "PageLayout": obj.Ref{Num: 8}, "Lang": obj.Ref{Num: 9}, "NeedsRendering": obj.Ref{Num: 10}}},
+					"PageMode": obj.Ref{Num: 7}, "PageLayout": obj.Ref{Num: 8}, "Lang": obj.Ref{Num: 9}, "NeedsRendering": obj.Ref{Num: 10}, "Metadata": obj.Ref{Num: 16}}},
+				// a metadata stream whose (empty) filter chain is an indirect object
+				{Num: 16, Kind: ser.Define, Value: &obj.Stream{Dict: obj.Dict{"Type": obj.Name("Metadata"), "Subtype": obj.Name("XML"), "Filter": obj.Ref{Num: 17}}, Raw: []byte(xmpPacket)}},
+				{Num: 17, Kind: ser.Define, Value: obj.Array{}},
 				{Num: 7, Kind: ser.Define, Value: obj.Name("UseOutlines")},
 				{Num: 8, Kind: ser.Define, Value: obj.Name("TwoColumnLeft")},
 				{Num: 9, Kind: ser.Define, Value: obj.Str("de-CH")},
@@ -49,6 +53,11 @@ func historyDoc(seed int64, history string) (*shared.Doc, error) {
 				{Num: 2, Kind: ser.Define, Value: obj.Dict{"Type": obj.Name("Pages"), "Kids": obj.Array{}, "Count": obj.Int(0)}},
 				{Num: 3, Kind: ser.Define, Value: info},
 				{Num: 4, Kind: ser.Define, Value: &obj.Stream{Dict: obj.Dict{"K": obj.Int(1)}, Raw: []byte(strings.Repeat("first revision of the stream\n", 45))}},
+				// a stream whose /Filter array and /DecodeParms array have indirect elements
+				{Num: 13, Kind: ser.Define, Value: obj.Name("ASCIIHexDecode")},
+				{Num: 14, Kind: ser.Define, Value: obj.Dict{}},
+				{Num: 15, Kind: ser.Define, Value: &obj.Stream{Dict: obj.Dict{"Filter": obj.Array{obj.Ref{Num: 13}}, "DecodeParms": obj.Array{obj.Ref{Num: 14}}},
+					Raw: []byte(hex.EncodeToString([]byte(strings.Repeat("hex-encoded stream data ", 20))) + ">")}},
 				{Num: 5, Kind: ser.Define, Value: obj.Int(1000 + seed%97)},
 				{Num: 6, Kind: ser.Define, Value: obj.Dict{"A": obj.Int(1), "B": obj.Ref{Num: 5}, "Text": obj.Str(strings.Repeat("x", 300))}},
 			}
@@ -74,11 +83,16 @@ func historyDoc(seed int64, history string) (*shared.Doc, error) {
 	for _, o := range []struct {
 		n uint32
 		k string
-	}{{1, "dict"}, {2, "dict"}, {3, "dict"}, {4, "stream"}, {5, "int"}, {6, "dict"}} {
+	}{{1, "dict"}, {2, "dict"}, {3, "dict"}, {4, "stream"}, {5, "int"}, {6, "dict"}, {15, "stream"}} {
 		d.Objects = append(d.Objects, shared.DocObject{Ref: pdf.NewReference(o.n, 0), Kind: o.k, Start: -1, End: -1})
 	}
 	return d, nil
 }
+
+const xmpPacket = `<?xpacket begin="" id="W5M0MpCehiHzreSzNTczkc9d"?>` +
+	`<x:xmpmeta xmlns:x="adobe:ns:meta/"><rdf:RDF xmlns:rdf="http://www.w3.org/1999/02/22-rdf-syntax-ns#">` +
+	`<rdf:Description rdf:about="" xmlns:dc="http://purl.org/dc/elements/1.1/"><dc:format>application/pdf</dc:format></rdf:Description>` +
+	`</rdf:RDF></x:xmpmeta><?xpacket end="w"?>`
 
 // makeDoc produces the document of a read-side scenario.
 func makeDoc(sp docSpec) (*shared.Doc, error) {
